@@ -155,6 +155,7 @@ struct CliWorld : World {
         for (int i = 0; i < nops; ++i) {
             unsigned c = (unsigned)r.below(100);
             int64_t nm = names[r.below(names.size())];
+            if (r.below(100) < 3) { pl.add("usage", {(int64_t)r.below(8), nm}); continue; }
             if (r.below(100) < hostile_pct) { pl.add("hostile", {(int64_t)r.below(10), (int64_t)r.below(40), (int64_t)(r.next() >> 1)}); continue; }
             if (c < 30) {
                 int64_t pw = r.chance(1, 8) ? (int64_t)r.below(10) : r.pickv({0, 1, 2, 3, 4, 7, 8});
@@ -613,6 +614,42 @@ struct CliWorld : World {
         c.run->cur_op = cur;
     }
 
+    // Command lines the tools must refuse loudly: exit != 0, nothing written, no input touched.
+    static void do_usage(Ctx &c, const Op &op)
+    {
+        int kind = (int)(op.u(0) % 8);
+        std::string in = file_name(op.arg(1));
+        bool ex;
+        Bytes before = vfs_get(in, &ex);
+        if (!ex) return;
+        vfs_put("key.txt", (const unsigned char *)"pw\n", 3);
+        vfs_remove("u.out");
+        vfs_remove((in + ".ascon").c_str());
+        std::vector<std::string> args;
+        int tool = 0;
+        switch (kind) {
+        case 0: args = {"asconcrypt", "-e", "-p", "pw", "-k", "key.txt", "-o", "u.out", in}; break;          // both -p and -k
+        case 1: args = {"asconcrypt", "-e", "-p", "pw", "-o", "u.out", in, in}; break;                        // -o with two inputs
+        case 2: args = {"asconcrypt", "-e", "-p", "pw"}; break;                                                // no input
+        case 3: args = {"asconcrypt", "-e", "-o", "u.out", in}; break;                                         // no password, no terminal
+        case 4: args = {"asconcrypt", "-Z", "-p", "pw", in}; break;                                            // unknown option
+        case 5: args = {"asconcrypt", "-g", "k.key", in}; break;                                               // -g with an input file
+        case 6: args = {"asconcrypt", "-e", "-k", "no-such-key-file", "-o", "u.out", in}; break;               // missing key file
+        default: tool = 1; args = {"asconsum", "-Z", in}; break;                                               // asconsum: unknown option
+        }
+        Result r = run_tool(c, tool, args, nullptr, 0, -1, 0);
+        c.run->fold_u64((uint64_t)r.exit_code);
+        c.run->state(fmt("usage/%d/%d", kind, r.exit_code != 0));
+        const std::string site = tool ? "asconsum.usage" : "asconcrypt.usage";
+        // C19 does not say which command lines must be refused, only that a failing run leaves no output behind:
+        // a tool that accepts one of these and does its job is not judged; a refusal that leaves a file is
+        if (r.exit_code != 0 && (vfs_exists("u.out") || vfs_exists(in + ".ascon") || (kind == 5 && vfs_exists("k.key"))))
+            viol(c, "partial_output_left", site, fmt("kind=%d: exit %d but an output file exists", kind, r.exit_code));
+        (void)before;
+        vfs_remove("k.key");
+        c.run->probe(r.exit_code ? "usage.refused" : "usage.accepted");
+    }
+
     // Hostile but valid argument vectors and files: only memory safety is judged (C12); results are not.
     static void do_hostile(Ctx &c, const Op &op)
     {
@@ -854,6 +891,7 @@ struct CliWorld : World {
             else if (op.name == "gen") do_gen(c, op);
             else if (op.name == "sweep") do_sweep(c, op);
             else if (op.name == "hostile") do_hostile(c, op);
+            else if (op.name == "usage") do_usage(c, op);
             else if (op.name == "sum") do_sum(c, op);
             else if (op.name == "chk") do_chk(c, op);
         }
